@@ -390,6 +390,45 @@ func TestParsePositions(t *testing.T) {
 	})
 }
 
+// Two hashes can still become the opener of a block comment (###): the byte that cannot continue
+// the text is the one behind them - or the last byte, when the text ends there.
+func TestUnfinishedCommentOpener(t *testing.T) {
+	run.SkipIfReplaying(t)
+	defer run.Done(t, chkParse)
+	rapid.Check(t, func(t *rapid.T) {
+		prefix := rapid.SampledFrom([]string{"{} ", "1 ", "[\n 1, ", "{\n \"a\": 1 ", "{\n \"a\": 1, ", "{\n \"a\": 1 // {min: 1 ", "[\n ", "\"s\"", "@t ", "{\n \"a\": ", "[] # c\n"}).Draw(t, "prefix")
+		tail := rapid.SampledFrom([]string{"x", " c", "\n", "1", "}", "\"", " ### c ###", "", "/", "\t#"}).Draw(t, "tail")
+		rest := rapid.SampledFrom([]string{"", "\n}", "\n 2\n]", " x"}).Draw(t, "rest")
+		in := prefix + "##" + tail
+		want := len(prefix) + 2
+		if tail == "" {
+			want = len(in) - 1
+		} else {
+			in += rest
+		}
+		c := ParseCase{Input: in, Scanner: "schema"}
+		var err error
+		func() {
+			defer func() {
+				if r := recover(); r != nil {
+					err = fmt.Errorf("panic: %v", r)
+				}
+			}()
+			err = js.New("schema", in).Check()
+		}()
+		r := lib.Canon(err)
+		if r.OK {
+			run.Fail(t, chkParse, c, "a text with two hashes that open no comment is accepted")
+		}
+		if !r.HasPos || r.Pos != want {
+			run.Fail(t, chkParse, c, "parsing error %v at %d: the two hashes may still become the opener of a block comment, the first byte that cannot continue the text is at %d", r, r.Pos, want)
+		}
+		run.Eval(chkParse, true, in)
+		run.Label("parse-error:unfinished-comment-opener")
+		run.Sample(chkParse, c)
+	})
+}
+
 // The schema scanner and the enum-rule scanner on their plain-JSON sublanguage: the same edits, the
 // same reference (the first byte that cannot continue a JSON text cannot continue these texts
 // either, as long as the edit does not open one of their extensions: comments and annotations "/"
